@@ -11,8 +11,11 @@ META = {
             "reported exactly once and nothing else is reported; a cache's lifetime is the one last configured, "
             "purges notwithstanding; sweeper-goroutine time advance and PurgeAll decompose into those ops. Tied to the "
             "code by a differential run of the real package in a synctest bubble (full package state compared after "
-            "every op), a model-free ledger oracle, a go/ast lock-discipline check, and concurrent histories checked "
-            "for a linearisation against the model (validation) and run under -race.",
+            "every op), a model-free ledger oracle, a go/ast lock-discipline check, concurrent histories checked "
+            "for a linearisation against the model (validation) and run under -race, and parallel bursts on one hot key "
+            "(writers looping add/del/find/sweep against many Find callers) checked by the ledger per writer operation "
+            "and at the quiescent point after every burst (last completed write decides what Find returns; Size; "
+            "each stored entry reported at most once).",
     "note": "The model mirrors the code WITH fixes/C28.patch (SetExpiration remembered across Purge; PurgeAll reads "
             "cacheList under the lock); on the unpatched tree the check reports VIOLATION (classes "
             "lifetime-lost-after-purge, unlocked-map-access). Trusted: Lean kernel; testing/synctest virtual clock; "
@@ -96,13 +99,19 @@ def run(ctx):
         "evaluations": len(seq) + len(lin),
         "sequential_histories": c.get("seq.histories", 0),
         "concurrent_histories": len(lin),
+        "hammer_bursts": c.get("hammer.bursts", 0),
+        "hammer_writer_ops": c.get("hammer.writer_ops", 0),
+        "hammer_reader_finds": c.get("hammer.reader_finds", 0),
         "distinct_nontrivial": c.get("distinct_nontrivial", 0),
         "race_detector": race,
         "rule": "histories of 4-40 ops (add/find/del/purge/purgel/purgeall/setexp/sweep/adv) over 3 classes, 2-6 look-alike keys "
                 "(\"1\", 1, int64(1), uint8(1), struct, array), MaxCacheSize 0-4 (global or via the setting), 26 duration texts "
                 "(negative, zero, fractional, malformed), 24 advance steps around the 60 s scan/expiry boundaries; a fixed corpus of "
                 "19 nasty histories first; non-trivial = the history saw a hit, an eviction and (a purge or a capacity rejection); "
-                "concurrent: prefix + 2-4 goroutines x 2-5 ops with invocation/response stamps",
+                "concurrent: prefix + 2-4 goroutines x 2-5 ops with invocation/response stamps; hammer: bursts of 1-3 writer "
+                "goroutines looping a 2-7 op add/del/find/sweep program on 1-2 hot keys against 2-6 goroutines calling Find on "
+                "the same keys (tight / Gosched / busy-spin spacing), lifetimes 1h, default and -5s (sweep = delete), "
+                "ledger oracle per writer op (single writer) and quiescent-point oracle after every burst",
         "samples": st.get("samples", []),
         "counters": c,
     })
